@@ -9,7 +9,8 @@ ops (hex bytes, `-` = nil/empty):
   put <k> <v>                -> ok
   del <k>                    -> ok | notfound (GoMemDB.Delete of an absent key returns an error)
   get <k>                    -> = <v> | notfound
-  batch <S:k:v|D:k>,…  | -   -> ok | notfound (memBatch.Write returns the error of its last op)
+  batch <S:k:v|N:k|D:k|R>,… | - -> <ok|notfound> <ValueSize> <ValueLen>
+                                (N = Set(k, nil), R = Reset(); memBatch.Write returns the error of its last op)
   it <start|-> <end|-> <0|1> -> ok            (opens an iterator on a snapshot; writes close it)
   rewind | next | seek <k>   -> <ret01> <valid01> <key|-> <value|->  | panic
 -/
@@ -32,33 +33,29 @@ def b01 (b : Bool) : String := if b then "1" else "0"
 def showIt (ret valid : Bool) (k v : Bytes) : String :=
   if valid then s!"{b01 ret} 1 {toHexOrDash k} {toHexOrDash v}" else s!"{b01 ret} 0 - -"
 
-def parseBOp (s : String) : Option BOp :=
+/-- batch items: `S:k:v` Set(k, v) with a non-nil value (`-` = non-nil empty), `N:k` Set(k, nil),
+`D:k` Delete(k), `R` Reset(). -/
+def parseCall (s : String) : Option BCall :=
   match s.splitOn ":" with
   | ["S", k, v] => do
     let k ← fromHex k
     let v ← fromHex v
-    pure (.set k v)
+    pure (.set k (some v))
+  | ["N", k] => do
+    let k ← fromHex k
+    pure (.set k none)
   | ["D", k] => do
     let k ← fromHex k
-    pure (.del k)
+    pure (.delete k)
+  | ["R"] => some .reset
   | _ => none
 
-def parseBatch (s : String) : Option (List BOp) :=
-  if s == "-" then some [] else (s.splitOn ",").mapM parseBOp
+def parseBatch (s : String) : Option (List BCall) :=
+  if s == "-" then some [] else (s.splitOn ",").mapM parseCall
 
-/-- result of `Delete`/`memBatch.Write` on GoMemDB: deleting an absent key is an error. -/
+/-- result of `Delete` on GoMemDB: deleting an absent key is an error. -/
 def delResult (b : Backend) (m : Map) (k : Bytes) : String :=
   if b == .mem && (get m k).isNone then "notfound" else "ok"
-
-def batchResult (b : Backend) (m : Map) (ops : List BOp) : String :=
-  -- only the last operation's error survives in memBatch.Write
-  match ops.reverse with
-  | [] => "ok"
-  | last :: before =>
-    let m' := applyBatch m before.reverse
-    match last with
-    | .set _ _ => "ok"
-    | .del k => delResult b m' k
 
 def itStep (s : St) (f : Iter → Iter × Bool) (g : BIter → Option (BIter × Bool)) : St × String :=
   match s.it with
@@ -97,7 +94,12 @@ def step (s : St) (line : String) : St × String :=
     | none => (s, "bad-op")
   | ["batch", b] =>
     match parseBatch b with
-    | some ops => ({ s with m := applyBatch s.m ops, it := none }, batchResult s.backend s.m ops)
+    | some calls =>
+      -- the batch is built by the calls, ValueSize/ValueLen are read, then Write
+      let bt := calls.foldl Batch.call ({} : Batch)
+      let r := bt.write s.m
+      let err := if s.backend == .mem && r.2 then "notfound" else "ok"
+      ({ s with m := r.1, it := none }, s!"{err} {bt.size} {bt.len}")
     | none => (s, "bad-op")
   | ["it", st, en, rev] =>
     match fromHex st with
